@@ -771,6 +771,11 @@ impl WriterSet {
             self.segment_size,
             self.compression,
         )?;
+        // Synced offsets are per segment: appends to the new segment must not be released
+        // by the (larger) offset the old segment was synced to. Waiters of the old segment
+        // were all satisfied by the sync above and keep their receivers.
+        let (sync_tx, _) = watch::channel(self.writer.write_offset());
+        self.sync_tx = sync_tx;
         let old_reader = mem::replace(
             &mut self.reader,
             BucketSegmentReader::open(
